@@ -23,13 +23,13 @@ def run(chk):
     thorough = chk.tier == "thorough"
     N = int(os.environ.get("VERIF_C18_N", "16" if thorough else "8"))
     sweep_len = 6 if thorough else 5
-    chk.bounds = {"repl loop": "%d lines of <= %d characters each over the alphabet ( ) \" ; # \\ | a (a = every other character), every evaluation outcome" % ((3, 2) if thorough else (3, 1)),
+    chk.bounds = {"repl loop": "3 lines of <= 1 character%s over the alphabet ( ) \" ; # \\ | a (a = every other character), every evaluation outcome" % (" and 2 lines of <= 2 characters" if thorough else ""),
                   "text length": "<= %d characters over the 13-symbol alphabet %r" % (N, "".join(ALPHABET)),
                   "unwind": N + 2, "oracle validation": "reference model == real Lexer on every string of length <= %d over the alphabet" % sweep_len}
     chk.assumptions += [
         "alphabet abstraction: texts over ( ) \" ; LF CR # \\ | ' a 1 space; a second harness shows check_bracket_closed treats every other character like 'a' (the reader does not: digits, signs, dots, commas etc. are outside the bound)",
         "texts the reader rejects with a lexical error are excluded (the property speaks of lists the lines opened)",
-        "the loop run_with_interpreter is checked by the MIR executor with the line editor, the evaluator and printing replaced by logging stubs (unit 'repl loop'): %d lines of <= %d characters over ( ) \" ; # \\ | a; what is printed for a value, history and ctrl-c handling are outside; counterexamples are replayed by driving the real binary over a pipe against the reference protocol" % ((3, 2) if thorough else (3, 1)),
+        "the loop run_with_interpreter is checked by the MIR executor with the line editor, the evaluator and printing replaced by logging stubs (unit 'repl loop'): %d lines of <= %d characters over ( ) \" ; # \\ | a; what is printed for a value, history and ctrl-c handling are outside; counterexamples are replayed by driving the real binary over a pipe against the reference protocol" % ((3, 1)),
         "Kani models the dev profile; CBMC/cadical trusted",
     ]
     nat = chk.ws.runner("dev")
@@ -102,5 +102,7 @@ def run(chk):
     chk.samples.append({"unit": unit, "obligation": "for every char c outside the special set and every alphabet char x: verdict(x c x) == verdict(x a x)", "verdict": res2["status"]})
     chk.encoded.add("repl::check_bracket_closed (compiled code under Kani/CBMC)")
     from . import c18loop
-    chk.step("repl loop", c18loop.spec_repl_loop, chk, 3, 2 if thorough else 1)
+    chk.step("repl loop", c18loop.spec_repl_loop, chk, 3, 1)
+    if thorough:
+        chk.step("repl loop, two lines of two characters", c18loop.spec_repl_loop, chk, 2, 2)
     chk.notes.append("kani: %s" % json.dumps(chk.kani))
